@@ -48,6 +48,8 @@ Definition top_wf (s : sstore) (t : top) : Prop :=
       s res = None /\ user_slot res /\ s src <> None /\ user_slot src
   | TAssign o src | TMoveAssign o src | TAppend o src _ => s o <> None /\ user_slot o /\ s src <> None /\ user_slot src
   | TThrowing temps _ => length temps <= scratch_slots
+  | TFreshVia res src temps _ =>
+      s res = None /\ user_slot res /\ s src <> None /\ user_slot src /\ length temps <= scratch_slots
   end.
 
 (* the objects an operation may change *)
@@ -55,7 +57,8 @@ Definition touched (t : top) : list objid :=
   match t with
   | TNew o _ | TEmpty o | TClear o | TDel o | TSetBytes o _ => [o]
   | TReads _ | TThrowing _ _ => []
-  | TFreshNRVO res _ _ | TFreshMoveCtor res _ _ | TFreshMoveAsg res _ _ | TCopyOf res _ | TCopyMove res _ => [res]
+  | TFreshNRVO res _ _ | TFreshMoveCtor res _ _ | TFreshMoveAsg res _ _ | TCopyOf res _ | TCopyMove res _
+  | TFreshVia res _ _ _ => [res]
   | TAssign o _ | TAppend o _ _ => [o]
   | TMoveAssign o src | TMoveCtor o src => [o; src]
   end.
@@ -105,12 +108,49 @@ Lemma tmp1_scratch : tmp1 = scratch_base + 1. Proof. unfold tmp1. lia. Qed.
 Ltac upd_simp :=
   repeat first [ rewrite upd_same | rewrite upd_other by (unfold user_slot, tmp0, tmp1, scratch_base in *; lia) ].
 
+(* ---- temporaries on the spec store ---- *)
+Lemma spec_build_temps_other temps : forall k s o,
+  ~ (scratch_base + k <= o < scratch_base + k + length temps) ->
+  fold_left spec_bop (build_temps k temps) s o = s o.
+Proof.
+  induction temps as [|d temps IH]; intros k s o H; [reflexivity|].
+  cbn [build_temps fold_left length] in *. rewrite IH by (cbn [length] in H; lia).
+  cbn [spec_bop]. unfold sset. apply upd_other. lia.
+Qed.
+
+Lemma spec_build_temps_live temps : forall k s j,
+  k <= j < k + length temps -> fold_left spec_bop (build_temps k temps) s (scratch_base + j) <> None.
+Proof.
+  induction temps as [|d temps IH]; intros k s j H; [cbn in H; lia|].
+  cbn [build_temps fold_left length] in *.
+  destruct (Nat.eq_dec j k) as [->|N].
+  - rewrite spec_build_temps_other by lia. cbn [spec_bop]. unfold sset. rewrite upd_same. discriminate.
+  - apply IH. lia.
+Qed.
+
+Lemma wf_build_temps0 temps : forall k s,
+  (forall j, k <= j < k + length temps -> s (scratch_base + j) = None) ->
+  wf_history s (build_temps k temps).
+Proof.
+  induction temps as [|d temps IH]; intros k s H; simpl; [exact Logic.I|].
+  split; [unfold sdead; apply H; simpl; lia|].
+  apply IH. intros j Hj. simpl. unfold sset. rewrite upd_other by lia. apply H. simpl. lia.
+Qed.
+
+Lemma wf_del_temps : forall n k s,
+  (forall j, k <= j < k + n -> s (scratch_base + j) <> None) -> wf_history s (del_temps k n).
+Proof.
+  induction n as [|n IH]; intros k s H; cbn [del_temps wf_history]; [exact Logic.I|].
+  split; [cbn [wf_sop]; unfold slive; apply H; lia|].
+  apply IH. intros j Hj. cbn [spec_bop]. unfold sset. rewrite upd_other by lia. apply H. lia.
+Qed.
+
 Lemma expand_wf s t : top_wf s t -> snd (expand t) = None -> wf_history s (fst (expand t)).
 Proof.
   intros (SD & W) NT.
   assert (D0 : s tmp0 = None) by (rewrite tmp0_scratch; apply SD; unfold scratch_slots; lia).
   assert (D1 : s tmp1 = None) by (rewrite tmp1_scratch; apply SD; unfold scratch_slots; lia).
-  destruct t as [o d|o|res src v|res src v|res src v|res|res src|res src|o src|o src|o src|o d|o src v|o|o|temps e];
+  destruct t as [o d|o|res src v|res src v|res src v|res|res src|res src|o src|o src|o src|o d|o src v|o|o|temps e|res src temps v];
     cbn [expand fst snd wf_history wf_sop top_wf app spec_bop] in *; unfold sdead, slive, sget, sset in *; try discriminate.
   - tauto.
   - exact Logic.I.
@@ -169,6 +209,21 @@ Proof.
     + (* BDel tmp1 *) split; [rewrite upd_same; discriminate|exact Logic.I].
   - tauto.
   - tauto.
+  - (* several temporaries, then the result, then the temporaries are destroyed *)
+    destruct W as (Wr & Ur & Ws & Us & Wl).
+    apply wf_history_app. split.
+    + apply wf_build_temps0. intros j Hj. apply SD. lia.
+    + set (s1 := fold_left spec_bop (build_temps 0 temps) s).
+      assert (R1 : s1 res = None).
+      { unfold s1. rewrite spec_build_temps_other; [exact Wr|unfold user_slot in Ur; lia]. }
+      cbn [wf_history wf_sop]. split; [exact R1|].
+      apply wf_history_app.
+      destruct (wf_alloc_with res v (spec_bop s1 (BDef res)) ltac:(cbn [spec_bop]; unfold sset; rewrite upd_same; discriminate)) as (A & B & C).
+      split; [exact A|].
+      apply wf_del_temps. intros j Hj.
+      rewrite C by (unfold user_slot in Ur; lia).
+      cbn [spec_bop]. unfold sset. rewrite upd_other by (unfold user_slot in Ur; lia).
+      unfold s1. apply spec_build_temps_live. lia.
 Qed.
 
 (* the body of an operation names only the objects it may change, and scratch slots *)
@@ -184,12 +239,18 @@ Proof.
   destruct Hin as [<-|Hin]; [simpl; unfold user_slot, scratch_base in *; intros [E|[]]; lia|]. eapply IH; eauto.
 Qed.
 
+Lemma untouched_del_temps x : forall n k, user_slot x -> untouched x (del_temps k n).
+Proof.
+  induction n as [|n IH]; intros k Ux op Hin; cbn [del_temps] in Hin; [contradiction|].
+  destruct Hin as [<-|Hin]; [simpl; unfold user_slot, scratch_base in *; intros [E|[]]; lia|]. eapply IH; eauto.
+Qed.
+
 Lemma untouched_expand x t : user_slot x -> ~ In x (touched t) -> untouched x (fst (expand t)).
 Proof.
   intros Ux Nt op Hin.
   assert (Hs0 : x <> tmp0) by (unfold user_slot, tmp0, scratch_base in *; lia).
   assert (Hs1 : x <> tmp1) by (unfold user_slot, tmp1, scratch_base in *; lia).
-  destruct t as [o d|o|res src v|res src v|res src v|res|res src|res src|o src|o src|o src|o d|o src v|o|o|temps e];
+  destruct t as [o d|o|res src v|res src v|res src v|res|res src|res src|o src|o src|o src|o d|o src v|o|o|temps e|res src temps v];
     cbn [expand fst touched] in Hin, Nt; unfold alloc_with in Hin;
     try (eapply untouched_build_temps; eassumption);
     repeat match goal with
@@ -199,7 +260,10 @@ Proof.
            end;
     try (cbn [targets]; simpl in Nt; simpl; intros HH; repeat (destruct HH as [HH|HH]; [subst; tauto|]); contradiction);
     try (eapply untouched_write_all; [|eassumption]; simpl in Nt; first [exact Hs0 | tauto]).
-  eapply untouched_write_all; [|eassumption]. simpl in Nt. intros ->. tauto.
+  - eapply untouched_write_all; [|eassumption]. simpl in Nt. intros ->. tauto.
+  - eapply untouched_build_temps; eassumption.
+  - eapply untouched_write_all; [|eassumption]. simpl in Nt. intros ->. tauto.
+  - eapply untouched_del_temps; eassumption.
 Qed.
 
 (* ---- the main theorem for non-throwing operations ---- *)
@@ -339,7 +403,7 @@ Proof.
   - destruct W as (W1 & W2).
     destruct (snd (expand t)) as [e|] eqn:Ex.
     + (* throwing *)
-      destruct t as [| | | | | | | | | | | | | | |temps e0]; simpl in Ex; try discriminate. injection Ex as ->.
+      destruct t as [| | | | | | | | | | | | | | |temps e0| ]; simpl in Ex; try discriminate. injection Ex as ->.
       destruct (top_throw_ok st s temps e I R W1) as (st1 & E1 & I1 & R1 & _).
       rewrite E1. assert (Hs : spec_top s (TThrowing temps e) = s) by reflexivity. rewrite Hs in *.
       destruct (IH st1 s I1 R1 W2) as (A & B & C).
@@ -354,13 +418,15 @@ Qed.
 (* const members and free functions: the footprints that do not name the source *)
 Definition is_const (t : top) : bool :=
   match t with
-  | TReads _ | TFreshNRVO _ _ _ | TFreshMoveCtor _ _ _ | TFreshMoveAsg _ _ _ | TEmpty _ | TCopyOf _ _ | TCopyMove _ _ => true
+  | TReads _ | TFreshNRVO _ _ _ | TFreshMoveCtor _ _ _ | TFreshMoveAsg _ _ _ | TEmpty _ | TCopyOf _ _ | TCopyMove _ _
+  | TFreshVia _ _ _ _ => true
   | _ => false
   end.
 Definition source_of (t : top) : option objid :=
   match t with
   | TReads o => Some o
-  | TFreshNRVO _ src _ | TFreshMoveCtor _ src _ | TFreshMoveAsg _ src _ | TCopyOf _ src | TCopyMove _ src => Some src
+  | TFreshNRVO _ src _ | TFreshMoveCtor _ src _ | TFreshMoveAsg _ src _ | TCopyOf _ src | TCopyMove _ src
+  | TFreshVia _ src _ _ => Some src
   | _ => None
   end.
 
